@@ -100,9 +100,15 @@ Theorem C14_reader_is_bn_from :
 Proof. exact reader_is_bn_from. Qed.
 Print Assumptions C14_reader_is_bn_from.
 
-(* ---- which strings strconv.str2int accepts (after 4928697) ----
-   whatever str2int accepts contains at least one digit: a sign, a base prefix or blanks alone are no numeral (Lua's
-   tonumber / math.tointeger return nil for them) *)
-Theorem C14_str2int_sound : forall base s v, nl_str2int base s = Some v -> has_digit s.
+(* ---- which strings strconv.str2int accepts, and with which value (after 4928697) ----
+   [numeral_shape] (Model.v): blanks, an optional sign, with base detection an optional 0x/0X or 0b/0B prefix, AT LEAST
+   ONE digit of the base, blanks; the value is the digits' value modulo 2^64, negated for '-', as a signed 64-bit
+   integer.  Whatever str2int accepts has that shape and that value.  The statement is false of the code before the
+   repair (it accepted "-", "0x", " - " as 0) and separates: "0x" is no numeral. *)
+Theorem C14_str2int_sound : forall base s v, nl_str2int base s = Some v -> numeral_shape base s v.
 Proof. exact str2int_sound_holds. Qed.
 Print Assumptions C14_str2int_sound.
+
+Theorem C14_str2int_shape_separates : forall v, ~ numeral_shape 0 [48; 120] v.
+Proof. exact shape_rejects_prefix_only. Qed.
+Print Assumptions C14_str2int_shape_separates.
